@@ -184,6 +184,36 @@ class Parity:
         if n['k'] == 'DeclRefExpr' and n.get('rk') in ('param', 'local'):
             self.env[n['d']] = p
 
+    def _sign_selected_assignment(self, n):
+        """`if (northp) v op= a; else v op= -a;` - the statement form of `v op= northp ? a : -a`."""
+        f = self.fn
+        if not self.is_sign_flag(n['cond']) or n.get('then', -1) < 0 or n.get('else', -1) < 0:
+            return False
+
+        def single(j):
+            m = f.nodes[j]
+            while m['k'] == 'CompoundStmt' and len(m['ch']) == 1:
+                j = m['ch'][0]
+                m = f.nodes[j]
+            m = f.nodes[f.strip(j)]
+            if m['k'] in ('BinaryOperator', 'CompoundAssignOperator') and m.get('op') in ASSIGN_OPS:
+                return m
+            return None
+        a, b = single(n['then']), single(n['else'])
+        if a is None or b is None or a['op'] != b['op'] or not self._same(a['ch'][0], b['ch'][0]):
+            return False
+        if not self._is_neg_of(a['ch'][1], b['ch'][1]):
+            return False
+        inner = b['ch'][1] if f.nodes[f.strip_casts(a['ch'][1])]['k'] == 'UnaryOperator' else a['ch'][1]
+        rhs = mul(O, self.ev(inner))
+        if a['op'] == '=':
+            v = rhs
+        else:
+            cur = self.ev(a['ch'][0])
+            v = mul(cur, rhs) if a['op'] in ('*=', '/=') else (add(cur, rhs) if a['op'] in ('+=', '-=') else T)
+        self.store(a['ch'][0], v)
+        return True
+
     def assign(self, n):
         op = n['op']
         rhs = self.ev(n['ch'][1])
@@ -210,6 +240,8 @@ class Parity:
                     self.env[d['d']] = self.ev(d['init'])
                 else:
                     self.env[d['d']] = E
+        elif k == 'IfStmt' and self._sign_selected_assignment(n):
+            pass
         elif k == 'IfStmt':
             c = self.ev(n['cond'])
             before = dict(self.env)
